@@ -221,6 +221,11 @@ fn routes() -> Vec<Route> {
 fn universe(ikind: &str) -> Vec<MarketDataInstrument> {
     let exp1 = Utc.with_ymd_and_hms(2030, 3, 29, 8, 0, 0).unwrap();
     let exp2 = Utc.with_ymd_and_hms(2030, 6, 28, 8, 0, 0).unwrap();
+    // expiries on a year boundary: the ISO-8601 week-based year of these calendar dates is the NEXT year
+    // (2024-12-30 is in ISO week 2025-W01, 2025-12-30 in 2026-W01); the first one's week-year is the
+    // second one's calendar year
+    let yb1 = Utc.with_ymd_and_hms(2024, 12, 30, 8, 0, 0).unwrap();
+    let yb2 = Utc.with_ymd_and_hms(2025, 12, 30, 8, 0, 0).unwrap();
     let fut = |e| MarketDataInstrumentKind::Future(MarketDataFutureContract { expiry: e });
     let opt = |kind, e, strike: i64| {
         MarketDataInstrumentKind::Option(MarketDataOptionContract {
@@ -239,18 +244,18 @@ fn universe(ikind: &str) -> Vec<MarketDataInstrument> {
             vec![mk("btc", "usdt", k()), mk("btc", "usd", k()), mk("Eth", "USDT", k()), mk("1inch", "usdt", k()), mk("xbt", "usd", k())]
         }
         "future" => vec![
-            mk("btc", "usdt", fut(exp1)),
-            mk("btc", "usdt", fut(exp2)),
+            mk("btc", "usdt", fut(yb1)),
+            mk("btc", "usdt", fut(yb2)),
             mk("btc", "usd", fut(exp1)),
             mk("Eth", "USDT", fut(exp1)),
             mk("1inch", "usdt", fut(exp2)),
         ],
         "option" => vec![
-            mk("btc", "usdt", opt(OptionKind::Call, exp1, 50000)),
-            mk("btc", "usdt", opt(OptionKind::Put, exp1, 50000)),
-            mk("btc", "usdt", opt(OptionKind::Call, exp1, 5000)),
-            mk("Eth", "USDT", opt(OptionKind::Call, exp2, 3000)),
-            mk("1inch", "usd", opt(OptionKind::Put, exp1, 2)),
+            mk("btc", "usdt", opt(OptionKind::Call, yb1, 50000)),
+            mk("btc", "usdt", opt(OptionKind::Call, yb2, 50000)),
+            mk("btc", "usdt", opt(OptionKind::Put, yb1, 50000)),
+            mk("btc", "usdt", opt(OptionKind::Call, yb2, 5000)),
+            mk("1inch", "Usdt", opt(OptionKind::Put, exp1, 2)),
         ],
         other => usage(&format!("unknown instrument kind {other}")),
     }
@@ -436,6 +441,37 @@ fn echo_of(fam: Fam, token: &str) -> String {
         Fam::Bitfinex if token.starts_with('t') => format!("t{}", token[1..].to_uppercase()),
         _ => token.to_uppercase(),
     }
+}
+
+/// The venue's own symbol of a dated contract: everything but the expiry is taken from the connector's
+/// request (upper-cased), the expiry component is rendered by the venue from the contract's CALENDAR
+/// expiry date in the venue's documented format -
+///   OKX     YYMMDD   ("230526" = 26th of May 2023,   doc comment of okx/market.rs::format_expiry;
+///                     "BTC-USD-191227", "BTC-USD-231229-35000-C" in okx/subscription.rs, okx/trade.rs)
+///   Gate.io YYYYMMDD ("20241231" = 31st of December 2024, doc comment of gateio/market.rs::format_expiry;
+///                     "ETH_USDT_QUARTERLY_20201225" in gateio/perpetual/trade.rs)
+/// - independently of how the connector formatted it.
+fn venue_symbol(route: &Route, inst: &MarketDataInstrument, echo: String) -> Result<String, String> {
+    use chrono::Datelike;
+    let (expiry, option) = match &inst.kind {
+        MarketDataInstrumentKind::Future(c) => (c.expiry, false),
+        MarketDataInstrumentKind::Option(c) => (c.expiry, true),
+        _ => return Ok(echo),
+    };
+    let d = expiry.date_naive();
+    // (separator, index of the expiry component, rendered expiry)
+    let (sep, idx, text) = match route.fam {
+        Fam::Okx => ('-', 2, format!("{:02}{:02}{:02}", d.year() % 100, d.month(), d.day())),
+        Fam::GateioFut if option => ('-', 1, format!("{:04}{:02}{:02}", d.year(), d.month(), d.day())),
+        Fam::GateioFut => ('_', 3, format!("{:04}{:02}{:02}", d.year(), d.month(), d.day())),
+        _ => return Ok(echo),
+    };
+    let mut parts: Vec<String> = echo.split(sep).map(|x| x.to_string()).collect();
+    match parts.get(idx) {
+        Some(x) if x.len() == text.len() && x.chars().all(|c| c.is_ascii_digit()) => parts[idx] = text,
+        _ => return Err(format!("no expiry component at position {idx} of the requested symbol {echo}")),
+    }
+    Ok(parts.join(&sep.to_string()))
 }
 
 /// The (channel, market) tokens of the subscription requests a connector produced.
@@ -660,6 +696,8 @@ struct Session<T> {
     seq: [u64; NMARKETS],
     requests: Vec<String>,
     map_ids: Vec<String>,
+    /// the requests named other markets than the venue's symbols of the subscribed instruments
+    request_mismatch: Option<Value>,
 }
 
 fn key_of(m: usize, off: i64) -> u32 {
@@ -693,7 +731,7 @@ where
             let meta = WebSocketSubMapper::map::<E, I, K>(&subs);
             let toks = parse_requests(route.fam, &meta.ws_subscriptions)?;
             match toks.as_slice() {
-                [(ch, mk)] => Ok(Listed { channel: ch.clone(), echo: echo_of(route.fam, mk) }),
+                [(ch, mk)] => Ok(Listed { channel: ch.clone(), echo: venue_symbol(route, &uni[m - 1], echo_of(route.fam, mk))? }),
                 other => Err(format!("request for one instrument names {} markets: {other:?}", other.len())),
             }
         })
@@ -730,9 +768,11 @@ where
     let mut want: Vec<(String, String)> = markets.iter().map(|m| (list[*m - 1].channel.clone(), list[*m - 1].echo.clone())).collect();
     asked.sort();
     want.sort();
-    if asked != want {
-        return Err(format!("subscription requests name {asked:?}, the subscribed markets are {want:?}"));
+    // the venue subscribes what it was asked for; a symbol it does not list is refused
+    if let Some(unknown) = asked.iter().find(|a| !list.iter().any(|l| (&l.channel, &l.echo) == (&a.0, &a.1))) {
+        return Err(format!("subscription refused: the venue lists no market {unknown:?} (asked {asked:?}, subscribed instruments are {want:?})"));
     }
+    let request_mismatch = if asked != want { Some(json!({"requests_name": asked, "venue_symbols_of_subscribed_instruments": want})) } else { None };
 
     let mut chan = HashMap::new();
     let map = if route.fam == Fam::Bitfinex {
@@ -756,7 +796,7 @@ where
     let transformer = <Tr<E, I, K> as ExchangeTransformer<E, u32, K>>::init(map, &snapshots, tx)
         .await
         .map_err(|e| format!("transformer init failed: {e}"))?;
-    Ok(Session { transformer, chan, seq: [SNAPSHOT_SEQ; NMARKETS], requests, map_ids })
+    Ok(Session { transformer, chan, seq: [SNAPSHOT_SEQ; NMARKETS], requests, map_ids, request_mismatch })
 }
 
 fn unid_prefix() -> String {
@@ -891,11 +931,18 @@ where
                         Ok(sess) => {
                             let d = json!({"requests": sess.requests, "internal_subscription_ids": sess.map_ids, "venue_channel_ids": sess.chan,
                                            "instruments": markets.iter().map(|m| format!("{} (key {}, venue symbol {})", uni[*m - 1], key_of(*m, off), list[*m - 1].echo)).collect::<Vec<_>>()});
+                            if let Some(mm) = &sess.request_mismatch {
+                                ctx.bump(&key, "request_mismatch", 1);
+                                let e = ctx.stats.get_mut(&key).unwrap();
+                                if e.get("request_mismatch_example").is_none() {
+                                    e["request_mismatch_example"] = json!({"S": markets, "off": off, "detail": mm});
+                                }
+                            }
                             live = Some(Live { sess, markets: markets.clone() });
                             ctx.line(route, fl, a, &markets, off, 0, &[], vec![], d);
                         }
                         Err(e) => {
-                            if sub_failures.len() < 3 {
+                            if sub_failures.len() < 3 && !e.starts_with("subscription refused") {
                                 sub_failures.push(e.clone());
                             }
                             ctx.line(route, fl, a, &markets, off, 0, &[], vec![err(e.clone())], json!({"error": e}))
